@@ -1,2 +1,675 @@
+"""C16 - the command line writes exactly the API result and validates options first.
+
+Simulated system: the real ``oneliner/__main__.py`` executed by runpy inside a forked child,
+with argv, builtins.open (SimFS), stdout/stderr and the exit status owned by the simulator.
+"""
+from __future__ import annotations
+
+import gc
+import io
+import random as _random
+import sys
+
+from .core import OPTION_NAMES, OPTION_SPACE, cjson, derive_seed, digest, normalise, sha_text
+from .simfs import CWD, Patches, SimFS
+from .worker import fork_run
+
+PRNG_ALIGN = 20240229  # both the CLI child and the reference child seed `random` with this
+
+# ------------------------------------------------------------------------------------------
+# pool: deterministic, self-contained scripts of the supported fragment
+# ------------------------------------------------------------------------------------------
+
+CLI_POOL = {
+    "hello": "print('hello')\n",
+    "arith": "a = 2\nb = a ** 3 + 1\nprint(a, b)\n",
+    "ifelse": "x = 3\nif x > 2:\n    print('big')\n    y = 1\nelse:\n    print('small')\n    y = 2\nprint(y)\n",
+    "elif": "v = 5\nif v < 3:\n    r = 'a'\nelif v < 6:\n    r = 'b'\nelse:\n    r = 'c'\nprint(r)\n",
+    "while": "i = 0\ns = 0\nwhile i < 5:\n    i += 1\n    if i == 2:\n        continue\n    if i == 4:\n        break\n    s += i\nelse:\n    s = -1\nprint(i, s)\n",
+    "for": "acc = []\nfor k in range(6):\n    if k % 2:\n        continue\n    if k == 4:\n        break\n    acc.append(k)\nelse:\n    acc.append('e')\nprint(acc)\n",
+    "func": "def f(a, b=2, *c, d, **e):\n    return (a, b, c, d, e)\nr = f(1, d=4)\nprint(r)\n",
+    "closure": "def mk(p, q, r):\n    def inner():\n        return p + q + r\n    return inner\nv = mk(1, 2, 3)()\nprint(v)\n",
+    "nonlocal": "def counter(start, step):\n    n = start\n    def inc():\n        nonlocal n\n        n += step\n        return n\n    return inc\nc = counter(10, 5)\nc()\nw = c()\nprint(w)\n",
+    "class": "class A:\n    k = 1\n    def m(self):\n        return self.k + 1\nclass B(A):\n    def m(self):\n        return super().m() * 10\nz = B().m()\nprint(z)\n",
+    "ret_loop": "def find(xs, t):\n    for i, x in enumerate(xs):\n        if x == t:\n            return i\n    return -1\np = find([5, 6, 7], 7)\nq = find([5], 0)\nprint(p, q)\n",
+    "comp": "m = [[i * j for i in range(3)] for j in range(3)]\nd = {k: v for k, v in zip('abc', m)}\nt = sum(x for row in m for x in row)\nprint(m, d, t)\n",
+    "destruct": "a, (b, *c), d = 1, (2, 3, 4), 5\nx = y = [a, b]\nprint(a, b, c, d, x, y)\n",
+    "aug": "d = {'k': [1]}\nd['k'] += [2]\nn = 3\nn **= 2\nl = [1, 2, 3, 4]\nl[1:3] = [9]\nprint(d, n, l)\n",
+    "imports": "import os.path as osp, sys\nfrom os import sep as S\nj = osp.join('a', 'b')\nprint(j == 'a' + S + 'b', sys.maxsize > 0)\n",
+    "fstring": "name = 'w'\nnum = 3.14159\ns = f\"{name!r:>6}|{num:.2f}|{{}}|{'x' + name}\"\nprint(s)\n",
+    "quotes": "s1 = 'it\\'s'\ns2 = \"say \\\"hi\\\"\"\ns3 = 'tab\\there\\nnl\\\\'\nprint(s1, s2, s3)\n",
+    "unicode": "\u53d8\u91cf = 'caf\u00e9 \u4e2d\u6587 \\u00e9 \U0001f600'\n\u00fcber = len(\u53d8\u91cf)\nprint(\u53d8\u91cf, \u00fcber)\n",
+    "latin1": "s = '\u00e9\u00e8\u00ff \\xe9'\nprint(s, len(s))\n",
+    "global": "g = 0\ndef bump():\n    global g\n    g += 1\nbump()\nbump()\nprint(g)\n",
+    "lambda": "sq = lambda v, /, w=2, *, k=1: v * w + k\nr1 = sq(3)\nr2 = (lambda: 7)()\nprint(r1, r2)\n",
+    "prec": "a = 2\nb = -a ** 2 + (a + 1) * 3 // 2 % 5\nc = not a or a and b\nd = a if b else c\ne = (1, 2)[0]\nprint(b, c, d, e)\n",
+    "walrus": "data = [1, 2, 3]\nif (n := len(data)) > 2:\n    msg = f'{n} items'\nelse:\n    msg = 'few'\nprint(msg, n)\n",
+    "decor": "def twice(fn):\n    return lambda *a: fn(*a) * 2\n@twice\ndef h(v):\n    return v + 1\nu = h(2)\nprint(u)\n",
+    "bytes": "b = b'\\x00\\xffab'\nprint(b, len(b), 0x10, 1e3, 2j)\n",
+}
+
+# contents-level variants (bytes -> how the text layer of the CLI sees them)
+VARIANT_KINDS = ["plain", "plain", "plain", "crlf", "bom", "trailing_ws", "no_final_newline"]
+
+SPECIAL_INPUTS = {
+    # name: (bytes, note)
+    "empty": b"",
+    "comment_only": b"# nothing here\n",
+    "surrogate": b"s = '\\ud800'\nprint(len(s))\n",
+    "surrogate_pair_esc": b"s = '\\udc80x'\nn = len(s)\nprint(n)\n",
+    "unsupported_try": b"try:\n    x = 1\nexcept Exception:\n    x = 2\nprint(x)\n",
+    "unsupported_with": b"with open('f') as f:\n    pass\n",
+    "syntax_error": b"def (:\n",
+    "invalid_utf8": b"s = '\xff\xfe'\nprint(s)\n",
+    "nul_byte": b"x = 1\n\x00\n",
+}
+
+ATTR_NAMES = ["config_names", "__doc__", "__module__", "__dict__", "__class__", "__init__", "__weakref__",
+              "__eq__", "__hash__", "__setattr__", "__dir__", "__annotations__"]
+
+
+def make_input_bytes(prog: str, variant: str) -> bytes:
+    src = CLI_POOL[prog]
+    if variant == "crlf":
+        src = src.replace("\n", "\r\n")
+    elif variant == "trailing_ws":
+        src = src + "\n\n   \n"
+    elif variant == "no_final_newline":
+        src = src.rstrip("\n")
+    data = src.encode("utf-8")
+    if variant == "bom":
+        data = b"\xef\xbb\xbf" + data
+    return data
+
+
+def decode_like_cli(data: bytes):
+    """What ``open(IN, 'r', encoding='utf8').read()`` yields, through the real text layer."""
+    try:
+        return io.TextIOWrapper(io.BytesIO(data), encoding="utf-8").read()
+    except UnicodeDecodeError:
+        return None
+
+
+# ------------------------------------------------------------------------------------------
+# child side
+# ------------------------------------------------------------------------------------------
+
+
+def _exit_status(code) -> int:
+    if code is None:
+        return 0
+    if isinstance(code, int):
+        return code & 0xFF
+    return 1
+
+
+def child_cli(desc: dict) -> dict:
+    """One simulated process: python -m oneliner <argv> on SimFS under a fault plan."""
+    import random
+    import runpy
+
+    fsd = desc["fs"]
+    fs = SimFS({p: bytes.fromhex(h) for p, h in fsd["files"].items()}, fsd.get("dirs", []), fsd.get("ro", []),
+               fsd.get("unreadable", []), roles=desc.get("roles"), plan=desc.get("plan"), knobs=desc.get("knobs"))
+    initial = fs.snapshot()
+    patches = Patches(fs)
+    old = (sys.argv, sys.stdout, sys.stderr)
+    err = io.StringIO()
+    status = None
+    exc = None
+    random.seed(PRNG_ALIGN)
+    patches.install()
+    try:
+        sys.argv = ["oneliner"] + list(desc["argv"])
+        sys.stdout = fs.make_stdout()
+        sys.stderr = err
+        try:
+            runpy.run_module("oneliner", run_name="__main__", alter_sys=True)
+            status = 0
+        except SystemExit as e:
+            status = _exit_status(e.code)
+            exc = ["SystemExit", str(e.code)]
+        except BaseException as e:  # noqa: BLE001 - uncaught exception of the simulated process
+            status = 1
+            exc = [type(e).__name__, str(e)[:300]]
+        # interpreter finalisation: leaked file objects are closed, then stdout is flushed
+        gc.collect()
+        for o in list(fs.open_objs):
+            try:
+                if not o.closed:
+                    o.close()
+            except BaseException:  # noqa: BLE001
+                pass
+        try:
+            sys.stdout.flush()
+        except BaseException:  # noqa: BLE001
+            status = 120
+    finally:
+        out_obj = sys.stdout
+        sys.argv, sys.stdout, sys.stderr = old
+        patches.uninstall()
+    del out_obj
+    return {
+        "status": status, "exc": exc, "stdout": bytes(fs.stdout_bytes).hex(), "stderr": err.getvalue()[-1500:],
+        "initial": initial, "final": fs.snapshot(), "history": fs.history, "mutations": fs.mutations,
+        "fired": fs.fired, "passthrough": fs.passthrough, "points": fs.seq,
+    }
+
+
+def child_exp(arg) -> dict:
+    """Reference: the library call on the decoded contents with a new option object, first and
+    only call of a fresh fork; plus the behaviour of script and translation when evaluated."""
+    import random
+
+    import oneliner
+    from oneliner.config import Configs
+
+    text, model, do_eval = arg["text"], arg["model"], arg.get("eval", False)
+    random.seed(PRNG_ALIGN)
+    o = Configs()
+    try:
+        for n in OPTION_NAMES:
+            if n in model:
+                setattr(o, n, model[n])
+        conv = oneliner.convert_code_string(text, configs=o)
+    except BaseException as e:  # noqa: BLE001
+        return {"out": "exc", "exc": [type(e).__name__, str(e)[:300]]}
+    res = {"out": "ok", "sha": sha_text(normalise(conv)), "raw_sha": sha_text(conv), "len": len(conv)}
+    try:
+        conv.encode("utf-8")
+        res["utf8"] = True
+    except UnicodeEncodeError:
+        res["utf8"] = False
+    res["single_line"] = "\n" not in conv and "\r" not in conv
+    if do_eval:
+        a, b = _behaviour(text, "exec"), _behaviour(conv, "eval")
+        res["eval"] = a == b
+        if a != b:
+            if a[0] != "ok" or b[0] != "ok":
+                res["eval_class"] = "raises"
+                res["eval_names"] = [str(a[:2]), str(b[:2])]
+            elif a[1] != b[1]:
+                res["eval_class"] = "stdout-differs"
+                res["eval_names"] = []
+            else:
+                ga, gb = a[2], b[2]
+                missing = sorted(k for k in ga if k not in gb)
+                extra = sorted(k for k in gb if k not in ga)
+                differs = sorted(k for k in ga if k in gb and ga[k] != gb[k])
+                res["eval_class"] = "globals-differ"
+                res["eval_names"] = ["missing=" + ",".join(missing), "extra=" + ",".join(extra), "differs=" + ",".join(differs)]
+            res["eval_detail"] = [a, b]
+    return res
+
+
+def _behaviour(code: str, mode: str):
+    """stdout text + user globals of running `code` in a fresh namespace."""
+    buf = io.StringIO()
+
+    def _print(*a, **k):
+        k.pop("file", None)
+        print(*a, file=buf, **k)
+
+    g = {"print": _print, "__name__": "__main__"}
+    try:
+        if mode == "exec":
+            exec(compile(code, "<script>", "exec"), g)
+        else:
+            eval(compile(code, "<oneliner>", "eval"), g)
+    except BaseException as e:  # noqa: BLE001
+        return ["raised", type(e).__name__, str(e)[:200]]
+    out = {}
+    for k in sorted(g):
+        if k.startswith("__") or k in ("print", "itertools", "importlib"):
+            continue
+        v = g[k]
+        if isinstance(v, (int, float, str, bytes, bool, type(None), list, tuple, dict, set, complex)):
+            try:
+                out[k] = repr(v) if "at 0x" not in repr(v) else type(v).__name__
+            except Exception:
+                out[k] = type(v).__name__
+        else:
+            out[k] = "<" + type(v).__name__ + ">"
+    return ["ok", buf.getvalue(), out]
+
+
+# ------------------------------------------------------------------------------------------
+# generator of base cases
+# ------------------------------------------------------------------------------------------
+
+
+def _valid_item(rng):
+    name = rng.choice(OPTION_NAMES)
+    return {"cls": "valid", "name": name, "value": rng.choice(OPTION_SPACE[name])}
+
+
+def _invalid_item(rng):
+    c = rng.random()
+    if c < 0.34:
+        k = rng.random()
+        if k < 0.5:
+            name = rng.choice(ATTR_NAMES)
+        elif k < 0.8:
+            name = rng.choice(["zz%d" % rng.randint(0, 99), "unparse", "unparser2", "wrapper", "style", "un parser", "-", "\u00fcnparser"])
+        else:
+            name = ""
+        return {"cls": "unknown_name", "name": name, "value": rng.choice(["oneliner", "list", "x", ""])}
+    if c < 0.56:
+        return {"cls": "malformed", "raw": rng.choice(["unparser", "unparser=oneliner=x", "", "if_style", "a=b=c", "==", "unparser=oneliner="])}
+    if c < 0.84:
+        name = rng.choice(OPTION_NAMES)
+        others = [v for n in OPTION_NAMES if n != name for v in OPTION_SPACE[n]]
+        value = rng.choice(["bogus", "", "1", "None", "ast", "true"] + others)
+        return {"cls": "illegal_value", "name": name, "value": value}
+    if c < 0.92:
+        return {"cls": "bad_legacy", "value": rng.choice(["bogus", "", "one", "list"])}
+    return {"cls": rng.choice(["dangling_C", "dash_value"])}
+
+
+def _spell(item, rng) -> list:
+    cls = item["cls"]
+    if cls in ("valid", "unknown_name", "illegal_value"):
+        arg = "%s=%s" % (item["name"], item["value"])
+    elif cls == "malformed":
+        arg = item["raw"]
+    elif cls == "legacy":
+        return ["--unparser", item["value"]] if rng.random() < 0.7 else ["--unparser=" + item["value"]]
+    elif cls == "bad_legacy":
+        return ["--unparser", item["value"]]
+    elif cls == "dangling_C":
+        return ["-C"]  # must be placed last
+    elif cls == "dash_value":
+        return ["-C", "-x=1"]
+    else:
+        raise ValueError(cls)
+    if arg == "" or arg.startswith("-") or rng.random() < 0.5:
+        return ["-C", arg]
+    return ["-C" + arg]
+
+
+def gen_base(seed: int) -> dict:
+    rng = _random.Random(seed)
+    # ---- input -----------------------------------------------------------------------
+    in_kind = rng.choice(["pool"] * 14 + ["special"] * 3 + ["absent", "dir", "unreadable"])
+    in_path = rng.choice(["in.py", "in.py", "src/main.py", "\u00e9ntr\u00e9e.py"])
+    out_path = rng.choice(["out.txt", "out.txt", "build/out.py", "r\u00e9sultat.txt"])
+    files, dirs, ro, unreadable = {}, set(), [], []
+    for p in (in_path, out_path):
+        if "/" in p:
+            dirs.add(p.rsplit("/", 1)[0])
+    prog = variant = special = None
+    in_state = "present"
+    if in_kind == "pool":
+        prog = rng.choice(sorted(CLI_POOL))
+        variant = rng.choice(VARIANT_KINDS)
+        files[in_path] = make_input_bytes(prog, variant)
+    elif in_kind == "special":
+        special = rng.choice(sorted(SPECIAL_INPUTS))
+        files[in_path] = SPECIAL_INPUTS[special]
+    elif in_kind == "absent":
+        in_state = "absent"
+    elif in_kind == "dir":
+        in_state = "dir"
+        dirs.add(in_path)
+    elif in_kind == "unreadable":
+        in_state = "unreadable"
+        prog = "hello"
+        files[in_path] = CLI_POOL["hello"].encode()
+        unreadable.append(in_path)
+    files["other.txt"] = b"do not touch\n"
+    # ---- output mode and initial state of OUT -----------------------------------------
+    out_mode = rng.choice(["-o", "-o", "--output", "stdout", "stdout", "-oATTACHED", "--output="])
+    out_state = "n/a"
+    if out_mode != "stdout":
+        out_state = rng.choice(["absent", "absent", "shorter", "longer", "same_as_in", "missing_dir", "is_dir", "not_writable", "ro_dir"])
+        if out_state == "shorter":
+            files[out_path] = b"old"
+        elif out_state == "longer":
+            files[out_path] = b"#" * rng.choice([5000, 20000])
+        elif out_state == "same_as_in":
+            out_path = in_path
+        elif out_state == "missing_dir":
+            out_path = "nodir/out.txt"
+        elif out_state == "is_dir":
+            dirs.add(out_path)
+        elif out_state == "not_writable":
+            files[out_path] = b"precious"
+            ro.append(out_path)
+        elif out_state == "ro_dir":
+            out_path = "rodir/out.txt"
+            dirs.add("rodir")
+            ro.append("rodir")
+    # ---- option items ----------------------------------------------------------------
+    items = []
+    n_valid = rng.choice([0, 0, 1, 1, 2, 3, 4])
+    chosen: dict[str, str] = {}
+    for _ in range(n_valid):
+        it = _valid_item(rng)
+        if it["name"] in chosen:
+            it["value"] = chosen[it["name"]]  # repeated only with the same value
+        chosen[it["name"]] = it["value"]
+        items.append(it)
+    if rng.random() < 0.15:
+        v = chosen.get("unparser") or rng.choice(OPTION_SPACE["unparser"])
+        chosen["unparser"] = v
+        items.append({"cls": "legacy", "value": v})
+    n_invalid = rng.choice([0, 0, 0, 0, 1, 1, 1, 2])
+    for _ in range(n_invalid):
+        items.append(_invalid_item(rng))
+    rng.shuffle(items)
+    dangling = [it for it in items if it["cls"] == "dangling_C"]
+    items = [it for it in items if it["cls"] != "dangling_C"] + dangling[:1]
+    # ---- argv parts (kept as parts so the shrinker can drop items) --------------------------
+    parts = [{"kind": "item", "item": it, "argv": _spell(it, rng)} for it in items if it["cls"] != "dangling_C"]
+    parts.append({"kind": "in", "argv": [in_path]})
+    if out_mode in ("-o", "--output"):
+        parts.append({"kind": "out", "argv": [out_mode, out_path]})
+    elif out_mode == "-oATTACHED":
+        parts.append({"kind": "out", "argv": ["-o" + out_path]})
+    elif out_mode == "--output=":
+        parts.append({"kind": "out", "argv": ["--output=" + out_path]})
+    rng.shuffle(parts)
+    if dangling:
+        parts.append({"kind": "item", "item": dangling[0], "argv": ["-C"]})
+    roles = {in_path: "IN"}
+    if out_mode != "stdout":
+        roles[out_path] = "OUT" if out_path != in_path else "IN"
+    knobs = {
+        "buffer_size": rng.choice([8192, 8192, 1, 7, 64, 300]),
+        "stdout_buffer": rng.choice([8192, 16, 200]),
+        "stdout_line_buffered": rng.random() < 0.3,
+        "locale": rng.choice(["utf-8", "latin-1", "ascii"]),
+    }
+    return materialise({
+        "prop": "C16", "seed": seed, "parts": parts, "out_mode": "stdout" if out_mode == "stdout" else "file",
+        "in_path": in_path, "out_path": None if out_mode == "stdout" else out_path, "in_state": in_state,
+        "out_state": out_state, "prog": prog, "variant": variant, "special": special,
+        "fs": {"files": {p: files[p].hex() for p in sorted(files)}, "dirs": sorted(dirs), "ro": ro, "unreadable": unreadable},
+        "roles": roles, "knobs": knobs, "plan": [],
+    })
+
+
+def materialise(desc: dict) -> dict:
+    """argv and the typed item list are functions of the parts."""
+    desc["argv"] = [a for p in desc["parts"] for a in p["argv"]]
+    desc["items"] = [p["item"] for p in desc["parts"] if p["kind"] == "item"]
+    return desc
+
+
+FAULT_KINDS = {
+    "open": ["ENOENT", "EACCES", "ENOSPC", "EMFILE", "EIO"],
+    "read": ["short", "EIO", "EINTR"],
+    "write": ["short", "ENOSPC", "EIO", "EDQUOT", "EINTR"],
+    "close": ["EIO", "ENOSPC"],
+    "rename": ["EACCES", "ENOSPC"],
+    "unlink": ["EACCES"],
+}
+BENIGN = ("short", "EINTR")
+
+
+def fault_points(result: dict) -> list:
+    """(seq, op, role) of every fault point hit by a run."""
+    pts = []
+    seen = set()
+    for seq, op, role, a, res in result["history"]:
+        if op in FAULT_KINDS and seq not in seen:
+            seen.add(seq)
+            pts.append((seq, op, role))
+    return pts
+
+
+def single_fault_plans(result: dict) -> list:
+    plans = []
+    for seq, op, role in fault_points(result):
+        kinds = list(FAULT_KINDS[op])
+        if role == "STDOUT" and op == "write":
+            kinds.append("EPIPE")
+        for k in kinds:
+            f = {"at": seq, "op": op, "kind": k}
+            if k == "short":
+                plans.append([dict(f, n=1)])
+                plans.append([dict(f, n=1 << 20)])  # all but one byte
+            else:
+                plans.append([f])
+    return plans
+
+
+# ------------------------------------------------------------------------------------------
+# oracle
+# ------------------------------------------------------------------------------------------
+
+INVALID_CLASSES = ("unknown_name", "malformed", "illegal_value", "bad_legacy", "dangling_C", "dash_value")
+
+
+def expected_model(items) -> dict:
+    m = {}
+    for it in items:
+        if it["cls"] == "valid":
+            m[it["name"]] = it["value"]
+        elif it["cls"] == "legacy":
+            m["unparser"] = it["value"]
+    return m
+
+
+class C16Ctx:
+    def __init__(self, tpl):
+        self.tpl = tpl
+        self.exp_cache: dict[str, dict] = {}
+
+    def exp(self, data: bytes, model: dict, do_eval: bool) -> dict:
+        key = sha_text(data.hex())[:20] + "@" + cjson(model) + ("E" if do_eval else "")
+        r = self.exp_cache.get(key)
+        if r is None:
+            text = decode_like_cli(data)
+            if text is None:
+                r = {"out": "undecodable"}
+            else:
+                r = fork_run(child_exp, {"text": text, "model": model, "eval": do_eval})
+            self.exp_cache[key] = r
+        return r
+
+
+def judge(ctx: C16Ctx, desc: dict, res: dict) -> list:
+    """Oracles P1-P4 over one simulated process.  Returns violations (possibly empty)."""
+    V = []
+
+    def viol(oracle, cls, **kw):
+        d = {"oracle": oracle, "class": cls}
+        d.update(kw)
+        V.append(d)
+
+    fsd = desc["fs"]
+    initial, final = res["initial"], res["final"]
+    status = res["status"]
+    in_p = SimFS.norm(desc["in_path"])
+    out_p = SimFS.norm(desc["out_path"]) if desc["out_path"] else None
+    fired = res["fired"]
+    error_fault = any(f["kind"] not in BENIGN for f in fired)
+    has_invalid = any(it["cls"] in INVALID_CLASSES for it in desc["items"])
+    if res["passthrough"]:
+        # the simulated process opened a real path through builtins.open: outside the model
+        viol("MODEL", "real-file-opened", paths=res["passthrough"][:3])
+
+    changed = sorted(p for p in set(initial["files"]) | set(final["files"]) if initial["files"].get(p) != final["files"].get(p))
+    mutated_paths = sorted({m[3] for m in res["mutations"]})
+
+    if has_invalid:
+        # P3: error, and no event that creates / truncates / opens-for-write / renames / unlinks
+        if status == 0:
+            viol("P3", "invalid-option-accepted", status=status)
+        if res["mutations"]:
+            viol("P3", "output-touched-before-validation", mutations=res["mutations"][:4])
+        elif changed:
+            viol("P3", "fs-changed-despite-invalid-option", changed=changed)
+        return V
+
+    # nothing but OUT may ever be mutated
+    foreign = [p for p in mutated_paths if p != out_p]
+    if foreign:
+        viol("P1", "foreign-path-mutated", paths=foreign)
+
+    if desc["in_state"] != "present":
+        return V  # not gated: the statement quantifies over input files that exist
+    data = bytes.fromhex(fsd["files"][desc["in_path"]])
+    model = expected_model(desc["items"])
+    exp = ctx.exp(data, model, do_eval=desc.get("prog") is not None)
+    if exp["out"] != "ok":
+        return V  # undecodable input or conversion error: not gated (counted by the caller)
+    if exp.get("eval") is False:
+        viol("P2", exp.get("eval_class", "differs"), names=exp.get("eval_names"), prog=desc.get("prog"),
+             detail=exp.get("eval_detail"))
+
+    def text_ok(b: bytes, allow_newline: bool):
+        try:
+            t = b.decode("utf-8")
+        except UnicodeDecodeError:
+            return False, "not-utf8"
+        if sha_text(normalise(t)) == exp["sha"]:
+            return True, "exact"
+        if allow_newline and t.endswith("\n") and sha_text(normalise(t[:-1])) == exp["sha"]:
+            return True, "exact+newline"
+        return False, "differs"
+
+    if desc["out_mode"] == "stdout":
+        if res["mutations"] or changed:
+            viol("P1", "fs-changed-in-stdout-mode", changed=changed, mutations=res["mutations"][:4])
+        ok, how = text_ok(bytes.fromhex(res["stdout"]), True)
+        if status == 0 and not ok:
+            viol("P4" if fired else "P1", "exit0-but-stdout-" + how, fired=fired)
+        if status != 0 and not error_fault:
+            viol("P4" if fired else "P1", "failed-without-error-fault", status=status, exc=res["exc"], fired=fired)
+        return V
+
+    creatable = desc["out_state"] in ("absent", "shorter", "longer", "same_as_in")
+    if not creatable:
+        if status == 0:
+            viol("P1", "exit0-but-output-uncreatable", out_state=desc["out_state"])
+        return V
+    out_bytes = bytes.fromhex(final["files"][out_p]) if out_p in final["files"] else None
+    ok, how = (False, "missing") if out_bytes is None else text_ok(out_bytes, False)
+    if status == 0 and not ok:
+        viol("P4" if fired else "P1", "exit0-but-output-" + how, fired=fired)
+    if status != 0 and not error_fault:
+        viol("P4" if fired else "P1", "failed-without-error-fault", status=status, exc=res["exc"], fired=fired)
+    others = [p for p in changed if p != out_p]
+    if others:
+        viol("P1", "other-file-changed", paths=others)
+    return V
+
+
+def case_class(desc: dict) -> str:
+    cl = sorted({it["cls"] for it in desc["items"]}) or ["none"]
+    return "%s|%s|in=%s|out=%s" % (",".join(cl), desc["out_mode"], desc["special"] or desc["in_state"], desc["out_state"])
+
+
+def io_trace_key(res: dict) -> str:
+    return digest([[op, role, (r if isinstance(r, str) else "n")] for _, op, role, _, r in res["history"]])[:16]
+
+
+# ------------------------------------------------------------------------------------------
+# handlers
+# ------------------------------------------------------------------------------------------
+
+
 def register(tpl):
-    pass
+    ctx = C16Ctx(tpl)
+    tpl.c16 = ctx
+
+    def run_one(desc):
+        res = fork_run(child_cli, desc)
+        return res, judge(ctx, desc, res)
+
+    def h_check(req):
+        res, V = run_one(req["desc"])
+        out = {"violations": V, "digest": digest(res)}
+        if req.get("events"):
+            out["result"] = res
+        return out
+
+    def h_batch(req):
+        agg = {"bases": 0, "runs": 0, "fault_runs": 0, "failures": [], "faults": {}, "probes": {}, "classes": {},
+               "traces": [], "tuples": [], "samples": [], "digests": {}, "io_calls": 0, "byte_exact": 0, "ungated": {}}
+        traces, tuples = set(), set()
+        if "descs" in req:
+            bases = [(d.get("seed", 0), materialise(d)) for d in req["descs"]]
+        else:
+            bases = [(sd, gen_base(sd)) for sd in req["seeds"]]
+        rngm = _random.Random(derive_seed(bases[0][0] if bases else 0, "multi"))
+
+        def probe(name):
+            agg["probes"][name] = agg["probes"].get(name, 0) + 1
+
+        def account(desc, res, V, base_seed):
+            agg["runs"] += 1
+            agg["io_calls"] += len(res["history"])
+            traces.add(io_trace_key(res))
+            for f in res["fired"]:
+                k = "%s:%s" % (f.get("op"), f["kind"])
+                agg["faults"][k] = agg["faults"].get(k, 0) + 1
+                tuples.add(digest([case_class(desc), k, f["at"]])[:16])
+            if V:
+                agg["failures"].append({"seed": base_seed, "desc": desc, "violations": V})
+
+        for seed, base in bases:
+            res, V = run_one(base)
+            agg["bases"] += 1
+            account(base, res, V, seed)
+            cc = case_class(base)
+            agg["classes"][cc] = agg["classes"].get(cc, 0) + 1
+            tuples.add(digest([cc, "none", 0])[:16])
+            if req.get("want_digests"):
+                agg["digests"][str(seed)] = digest([base, res])
+            # probes
+            classes = [it["cls"] for it in base["items"]]
+            inv = [c for c in classes if c in INVALID_CLASSES]
+            if inv and any(c in ("valid", "legacy") for c in classes):
+                probe("invalid_item_together_with_valid_ones")
+            if inv and base["out_state"] in ("shorter", "longer", "not_writable"):
+                probe("invalid_item_with_preexisting_OUT")
+            if base["out_state"] == "same_as_in":
+                probe("OUT_is_IN")
+            if any(it["cls"] == "unknown_name" and it["name"] in ATTR_NAMES for it in base["items"]):
+                probe("attribute_name_used_as_option_name")
+            if base["special"] in ("surrogate", "surrogate_pair_esc"):
+                probe("result_with_lone_surrogate")
+            if base["in_state"] != "present":
+                agg["ungated"]["input_" + base["in_state"]] = agg["ungated"].get("input_" + base["in_state"], 0) + 1
+            if len(agg["samples"]) < req.get("n_samples", 0):
+                agg["samples"].append({"seed": seed, "argv": base["argv"], "class": cc, "knobs": base["knobs"],
+                                       "status": res["status"], "exc": res["exc"],
+                                       "io_history": [[op, role, r if isinstance(r, str) else "n=%s" % r] for _, op, role, _, r in res["history"]][:30]})
+            if req.get("faults", True):
+                plans = single_fault_plans(res)
+                # seeded multi-fault plans (2-3 faults) on top of the exhaustive single-fault sweep
+                singles = [p[0] for p in plans]
+                for _ in range(min(req.get("multi", 3), len(singles) // 2)):
+                    k = rngm.choice([2, 2, 3])
+                    if len(singles) >= k:
+                        plans.append(sorted(rngm.sample(singles, k), key=lambda f: f["at"]))
+                for plan in plans:
+                    d2 = dict(base, plan=plan)
+                    r2, V2 = run_one(d2)
+                    agg["fault_runs"] += 1
+                    account(d2, r2, V2, seed)
+                    if any(f["op"] == "close" for f in r2["fired"]):
+                        probe("deferred_error_surfaced_at_close")
+                    if any(f["kind"] == "short" and f["op"] == "write" for f in r2["fired"]):
+                        probe("short_write_fired")
+                    if any(f["kind"] == "EPIPE" for f in r2["fired"]):
+                        probe("EPIPE_on_stdout")
+                    if inv and r2["fired"]:
+                        probe("fault_during_invalid_option_run")
+        agg["traces"] = sorted(traces)
+        agg["tuples"] = sorted(tuples)
+        return agg
+
+    def h_gen(req):
+        return gen_base(req["seed"])
+
+    def h_exp(req):
+        return ctx.exp(bytes.fromhex(req["data"]), req["model"], req.get("eval", False))
+
+    def h_judge(req):
+        return {"violations": judge(ctx, materialise(req["desc"]), req["result"])}
+
+    tpl.handlers.update({"c16_judge": h_judge, "c16_check": h_check, "c16_batch": h_batch, "c16_gen": h_gen, "c16_exp": h_exp})
